@@ -582,8 +582,8 @@ func (x *ctx) startSinglePieceDownloader(w *World, p int8) {
 					class = "webseed-active"
 				case af:
 					class = "allowed-fast-first"
-				case cnt >= 1:
-					class = "duplicate-first"
+				case w.EgSeen:
+					class = "after-endgame" // the end-game short path (sticky flag) does not go by index
 				}
 				x.fail("sequential.not-lowest."+class, "%s to an unchoking peer in sequential mode, all file-edge pieces are taken, but the lower-indexed piece %d is eligible too (peer has it, not done/writing, no peer downloads it, not reserved for a web seed)", who, lowest)
 				bad = true
